@@ -232,6 +232,12 @@ def fixed_noise(idx: ProgramIndex, rep: Report):
             defs = [a.value for a in ast.walk(fw.node) if isinstance(a, ast.Assign) and any(isinstance(t, ast.Name) and t.id == e.id for t in a.targets)]
             if len(defs) == 1:
                 e = defs[0]
+            elif defs:
+                # several re-bindings: one of them bounds the value, the others only convert the same value (dtype / device)
+                bounding_defs = [d for d in defs if bounded_expr(d)]
+                others = [d for d in defs if not bounded_expr(d)]
+                if bounding_defs and all({x.id for x in ast.walk(d) if isinstance(x, ast.Name)} <= {e.id, sn} and isinstance(d, ast.Call) and isinstance(d.func, ast.Attribute) and d.func.attr in ("to", "type_as", "float", "double") for d in others):
+                    e = bounding_defs[0]
         if chain(e) == "%s.noise" % sn or bounded_expr(e):
             continue
         probs.append("returns DiagLinearOperator(%s): a noise given at call time is added as it is (0, 1e-9 or a negative value: less than settings.min_fixed_noise, or a negative variance), unlike the stored noise" % src(r.value.args[0]))
